@@ -1,6 +1,580 @@
-//! C35 — not implemented yet.
-use mc_core::Ctx;
+//! C35 — subintent structure validation accepts exactly well-formed trees.
+//!
+//! The harness implements the public `IntentTreeStructure` / `IntentStructure` traits with mock intents
+//! (hash, children list, yield summary) and calls the real `TransactionValidator::validate_intents_and_structure`.
+//!
+//! Enumerated (exhaustive within the bound):
+//!  * both root kinds (transaction intent root / subintent root = partial transaction),
+//!  * `max_subintent_depth` N in {0,1,2,3,4} (0 = babylon, 3 = cuttlefish/latest),
+//!  * every list of n <= 3 non-root subintent hashes over {S1,S2,S3} (so duplicates of a hash are included),
+//!    thorough: also n = 4 over {S1..S4} (the distinct list and two lists with a repeated hash),
+//!  * for each of the n+1 intents every children list of length <= 2 (thorough n<=3: also <= 3; for n = 3 there with the distinct
+//!    hash list and two lists with a repeated hash) over
+//!    {S1..Sk, Unknown}, duplicates allowed (cycles, islands, shared children, self-parents, missing children),
+//!  * for every structure the reference calls well-formed: every yield-count assignment in {0,1,2} for both
+//!    directions of every parent/child edge (and the root's own parent-yield count),
+//!  * chains (and chains with a sibling leaf per level) of depth 0..=9 for N in {0..=7, usize::MAX}, listed in
+//!    forward and reverse order.
+//!
+//! Reference (written from the statement, bottom-up over parent sets; the code under test works top-down with a
+//! work list): pairwise distinct hashes AND every declared child present AND each subintent is the child of
+//! exactly one intent AND each subintent reaches the root by following parents without revisiting, in at most
+//! `allowed` steps AND the yield counts match on every edge. `allowed` = N for a transaction root; N-1 for a
+//! subintent root (config doc: "a setting of N allows a total depth of N + 1 if you include the root transaction
+//! intent", and a partial transaction's root is itself a subintent, i.e. occupies one of the N levels).
+//!
+//! Not decided by the statement (informational only):
+//!  * the same child listed twice by the *same* parent (a real `ChildSubintentSpecifiersV2` is a set),
+//!  * N = 0 with a subintent root (`N - 1` underflows in the code: panic with overflow checks),
+//!  * hash values no real transaction can have: an all-zero transaction intent hash (the code's internal
+//!    "no parent yet" sentinel) and a root subintent whose hash equals one of its descendants' hashes.
+use mc_core::{catch, par_range, Ctx, Level, Local};
+use radix_common::prelude::*;
+use radix_transactions::errors::*;
+use radix_transactions::prelude::*;
+use radix_transactions::validation::*;
+use serde_json::{json, Map, Value};
+use std::sync::atomic::{AtomicU64, Ordering};
 
-pub fn run(_ctx: Ctx) -> ! {
-    mc_core::machinery_error("C35: not implemented")
+const UNKNOWN: u8 = 0xEE;
+const ROOT_TX: u8 = 0xA0;
+const ROOT_SUB: u8 = 0xB0;
+
+#[derive(Clone, Debug)]
+struct Shape {
+    /// label byte of the root hash (32 x that byte)
+    root_label: u8,
+    root_is_sub: bool,
+    /// labels of the non-root subintents, in list order
+    hashes: Vec<u8>,
+    /// children[0] = root's children labels, children[i+1] = those of non-root subintent i
+    children: Vec<Vec<u8>>,
+    /// parent_yields[i] = number of YIELD_TO_PARENT of intent i (0 = root)
+    parent_yields: Vec<u8>,
+    /// child_yields[i][j] = number of YIELD_TO_CHILD of intent i to its j-th children entry
+    child_yields: Vec<Vec<u8>>,
+}
+
+impl Shape {
+    fn new(root_is_sub: bool, hashes: Vec<u8>, children: Vec<Vec<u8>>) -> Shape {
+        let py = vec![0; children.len()];
+        let cy = children.iter().map(|c| vec![0; c.len()]).collect();
+        Shape { root_label: if root_is_sub { ROOT_SUB } else { ROOT_TX }, root_is_sub, hashes, children, parent_yields: py, child_yields: cy }
+    }
+    fn to_json(&self, n_cfg: usize) -> Value {
+        json!({
+            "root": if self.root_is_sub { "subintent" } else { "transaction" },
+            "root_label": self.root_label,
+            "max_subintent_depth": if n_cfg == usize::MAX { json!("usize::MAX") } else { json!(n_cfg) },
+            "subintents": self.hashes,
+            "children": self.children,
+            "parent_yields": self.parent_yields,
+            "child_yields": self.child_yields,
+        })
+    }
+    fn from_json(v: &Value) -> Option<(Shape, usize)> {
+        let bytes = |x: &Value| -> Option<Vec<u8>> { x.as_array()?.iter().map(|b| b.as_u64().map(|b| b as u8)).collect() };
+        let lists = |x: &Value| -> Option<Vec<Vec<u8>>> { x.as_array()?.iter().map(bytes).collect() };
+        let n_cfg = match v.get("max_subintent_depth")? {
+            Value::String(_) => usize::MAX,
+            x => x.as_u64()? as usize,
+        };
+        Some((
+            Shape {
+                root_label: v.get("root_label")?.as_u64()? as u8,
+                root_is_sub: v.get("root")?.as_str()? == "subintent",
+                hashes: bytes(v.get("subintents")?)?,
+                children: lists(v.get("children")?)?,
+                parent_yields: bytes(v.get("parent_yields")?)?,
+                child_yields: lists(v.get("child_yields")?)?,
+            },
+            n_cfg,
+        ))
+    }
+}
+
+// ---------------------------------------------------------------------------------------------
+// mock intents implementing the public traits
+// ---------------------------------------------------------------------------------------------
+
+fn sub_hash(label: u8) -> SubintentHash {
+    SubintentHash(Hash([label; Hash::LENGTH]))
+}
+
+struct MockIntent {
+    hash: IntentHash,
+    children: Vec<SubintentHash>,
+    parent_yields: usize,
+    child_yields: Vec<usize>,
+}
+
+impl IntentStructure for MockIntent {
+    fn intent_hash(&self) -> IntentHash {
+        self.hash
+    }
+    fn children(&self) -> impl ExactSizeIterator<Item = SubintentHash> {
+        self.children.iter().copied()
+    }
+    fn validate_intent(&self, _validator: &TransactionValidator, _aggregation: &mut AcrossIntentAggregation) -> Result<ManifestYieldSummary, IntentValidationError> {
+        // Same shape as the real summaries: one entry per declared child (`new_with_children`), then counts.
+        let mut summary = ManifestYieldSummary::new_with_children(self.children.iter().copied());
+        summary.parent_yields = self.parent_yields;
+        for (c, n) in self.children.iter().zip(self.child_yields.iter()) {
+            *summary.child_yields.get_mut(c).unwrap() += *n;
+        }
+        Ok(summary)
+    }
+}
+
+impl HasSubintentHash for MockIntent {
+    fn subintent_hash(&self) -> SubintentHash {
+        match self.hash {
+            IntentHash::Subintent(h) => h,
+            IntentHash::Transaction(_) => unreachable!("non-root mock intents are subintents"),
+        }
+    }
+}
+
+struct MockTree {
+    root: MockIntent,
+    subs: Vec<MockIntent>,
+}
+
+impl IntentTreeStructure for MockTree {
+    type RootIntentStructure = MockIntent;
+    type SubintentStructure = MockIntent;
+    fn root(&self) -> &MockIntent {
+        &self.root
+    }
+    fn non_root_subintents(&self) -> impl ExactSizeIterator<Item = &MockIntent> {
+        self.subs.iter()
+    }
+}
+
+fn build(shape: &Shape) -> MockTree {
+    let mk = |hash: IntentHash, i: usize| MockIntent {
+        hash,
+        children: shape.children[i].iter().map(|l| sub_hash(*l)).collect(),
+        parent_yields: shape.parent_yields[i] as usize,
+        child_yields: shape.child_yields[i].iter().map(|x| *x as usize).collect(),
+    };
+    let root_hash = if shape.root_is_sub {
+        IntentHash::Subintent(sub_hash(shape.root_label))
+    } else {
+        IntentHash::Transaction(TransactionIntentHash(Hash([shape.root_label; Hash::LENGTH])))
+    };
+    MockTree { root: mk(root_hash, 0), subs: shape.hashes.iter().enumerate().map(|(i, l)| mk(IntentHash::Subintent(sub_hash(*l)), i + 1)).collect() }
+}
+
+// ---------------------------------------------------------------------------------------------
+// reference predicate (from the statement)
+// ---------------------------------------------------------------------------------------------
+
+#[derive(Clone, Copy, PartialEq, Eq, Debug)]
+enum Ref {
+    WellFormed,
+    Ill(&'static str),
+    Undecided(&'static str),
+}
+
+/// `n_cfg` = configured max_subintent_depth.
+fn reference(s: &Shape, n_cfg: usize) -> Ref {
+    let n = s.hashes.len();
+    // (a) pairwise distinct
+    for i in 0..n {
+        for j in 0..i {
+            if s.hashes[i] == s.hashes[j] {
+                return Ref::Ill("not-distinct");
+            }
+        }
+    }
+    // (b) every declared child is present
+    for list in &s.children {
+        for c in list {
+            if !s.hashes.contains(c) {
+                return Ref::Ill("declared-child-absent");
+            }
+        }
+    }
+    // (c) every subintent is the child of exactly one intent; parent[i] = index of that intent (0 = root)
+    let mut parent = vec![usize::MAX; n];
+    for (i, h) in s.hashes.iter().enumerate() {
+        let ps: Vec<usize> = (0..=n).filter(|p| s.children[*p].contains(h)).collect();
+        match ps.len() {
+            0 => return Ref::Ill("no-parent"),
+            1 => parent[i] = ps[0],
+            _ => return Ref::Ill("multiple-parents"),
+        }
+    }
+    // (d) reachable from the root without cycles, within the depth limit
+    let allowed: Option<usize> = if s.root_is_sub { n_cfg.checked_sub(1) } else { Some(n_cfg) };
+    for i in 0..n {
+        let mut steps = 1usize;
+        let mut cur = parent[i];
+        while cur != 0 {
+            cur = parent[cur - 1];
+            steps += 1;
+            if steps > n {
+                return Ref::Ill("cycle-not-reachable");
+            }
+        }
+        match allowed {
+            None => return Ref::Undecided("subintent-root-with-max-depth-0"),
+            Some(a) if steps > a => return Ref::Ill("too-deep"),
+            _ => {}
+        }
+    }
+    if allowed.is_none() {
+        // root subintent alone, but the configuration allows no subintent level at all
+        return Ref::Undecided("subintent-root-with-max-depth-0");
+    }
+    // same child listed twice by one parent: the statement does not say
+    for list in &s.children {
+        for (i, c) in list.iter().enumerate() {
+            if list[..i].contains(c) {
+                return Ref::Undecided("same-parent-lists-child-twice");
+            }
+        }
+    }
+    // (e) each child yields to its parent exactly as many times as the parent yields to it
+    for i in 0..n {
+        let p = parent[i];
+        let j = s.children[p].iter().position(|c| *c == s.hashes[i]).unwrap();
+        if s.child_yields[p][j] != s.parent_yields[i + 1] {
+            return Ref::Ill("yield-count-mismatch");
+        }
+    }
+    Ref::WellFormed
+}
+
+// ---------------------------------------------------------------------------------------------
+// running the real validator
+// ---------------------------------------------------------------------------------------------
+
+fn validator(n_cfg: usize) -> TransactionValidator {
+    let mut config = TransactionValidationConfig::latest();
+    config.max_subintent_depth = n_cfg;
+    TransactionValidator::new_with_static_config_network_agnostic(config)
+}
+
+#[derive(Debug, PartialEq, Eq, Clone)]
+enum Real {
+    Accepted,
+    Rejected(&'static str),
+}
+
+fn run_real(v: &TransactionValidator, shape: &Shape) -> Real {
+    run_real_on(v, &build(shape))
+}
+
+fn run_real_on(v: &TransactionValidator, tree: &MockTree) -> Real {
+    match v.validate_intents_and_structure(tree) {
+        Ok(_) => Real::Accepted,
+        Err(TransactionValidationError::SubintentStructureError(_, e)) => Real::Rejected(match e {
+            SubintentStructureError::DuplicateSubintent => "rejected:duplicate-subintent",
+            SubintentStructureError::SubintentHasMultipleParents => "rejected:multiple-parents",
+            SubintentStructureError::ChildSubintentNotIncludedInTransaction(_) => "rejected:child-not-included",
+            SubintentStructureError::SubintentExceedsMaxDepth => "rejected:exceeds-max-depth",
+            SubintentStructureError::SubintentIsNotReachableFromTheTransactionIntent => "rejected:not-reachable",
+            SubintentStructureError::MismatchingYieldChildAndYieldParentCountsForSubintent => "rejected:yield-mismatch",
+        }),
+        Err(_) => Real::Rejected("rejected:other-error"),
+    }
+}
+
+/// Compare one shape under one configuration. Returns true if the reference called it well-formed.
+fn check_one(v: &TransactionValidator, shape: &Shape, n_cfg: usize, l: &mut Local, key_prefix: &str, informational_only: bool) -> bool {
+    check_tree(v, &build(shape), shape, n_cfg, l, key_prefix, informational_only)
+}
+
+/// `tree` must be `build(shape)` (built once and reused across configurations).
+fn check_tree(v: &TransactionValidator, tree: &MockTree, shape: &Shape, n_cfg: usize, l: &mut Local, key_prefix: &str, informational_only: bool) -> bool {
+    l.eval();
+    let r = reference(shape, n_cfg);
+    let real = match catch(|| run_real_on(v, tree)) {
+        Ok(x) => x,
+        Err(p) => {
+            // a panic is not an acceptance; the statement does not promise panic freedom
+            l.info(&format!("{key_prefix}panic:{}:ref={:?}", mc_core::truncate(&p, 60), r));
+            l.class("panicked");
+            return false;
+        }
+    };
+    let label = match &real {
+        Real::Accepted => "accepted",
+        Real::Rejected(s) => s,
+    };
+    if informational_only {
+        let agree = matches!((&r, &real), (Ref::WellFormed, Real::Accepted) | (Ref::Ill(_), Real::Rejected(_)) | (Ref::Undecided(_), _));
+        l.info(&format!("{key_prefix}{}:{}", if agree { "agrees-with-reference" } else { "DISAGREES-with-reference" }, label));
+        if !agree {
+            l.sample(|| json!({"informational_disagreement": key_prefix, "reference": format!("{r:?}"), "real": label, "case": shape.to_json(n_cfg)}));
+        }
+        return false;
+    }
+    match (&r, &real) {
+        (Ref::WellFormed, Real::Accepted) => {
+            l.class("accepted");
+            l.sample(|| json!({"accepted": shape.to_json(n_cfg)}));
+            true
+        }
+        (Ref::Ill(_), Real::Rejected(s)) => {
+            l.class(s);
+            false
+        }
+        (Ref::Undecided(why), _) => {
+            l.info(&format!("undecided:{why}:{label}"));
+            false
+        }
+        (Ref::Ill(why), Real::Accepted) => {
+            l.violation(format!("{key_prefix}accepts-ill-formed:{why}"), format!("reference: ill-formed ({why}); validate_intents_and_structure returned Ok"), shape.to_json(n_cfg));
+            false
+        }
+        (Ref::WellFormed, Real::Rejected(s)) => {
+            l.violation(format!("{key_prefix}rejects-well-formed:{s}"), format!("reference: well-formed tree; validate_intents_and_structure returned {s}"), shape.to_json(n_cfg));
+            true
+        }
+    }
+}
+
+/// All yield assignments in {0,1,2} over both directions of every edge (+ the root's own parent yields).
+fn yield_sweep(v: &TransactionValidator, base: &Shape, n_cfg: usize, l: &mut Local) -> u64 {
+    // slots: parent_yields[0..=n], then each child_yields entry
+    let n_int = base.children.len();
+    let entries: Vec<(usize, usize)> = base.children.iter().enumerate().flat_map(|(i, c)| (0..c.len()).map(move |j| (i, j))).collect();
+    let slots = n_int + entries.len();
+    let mut count = 0;
+    let mut shape = base.clone();
+    mc_core::gen::seqs_exact(3, slots, &mut |digits| {
+        if digits.iter().all(|d| *d == 0) {
+            return; // already done by the caller
+        }
+        for i in 0..n_int {
+            shape.parent_yields[i] = digits[i] as u8;
+        }
+        for (k, (i, j)) in entries.iter().enumerate() {
+            shape.child_yields[*i][*j] = digits[n_int + k] as u8;
+        }
+        check_one(v, &shape, n_cfg, l, "", false);
+        count += 1;
+    });
+    count
+}
+
+fn children_options(alphabet: &[u8], max_len: u32) -> Vec<Vec<u8>> {
+    let mut out = vec![];
+    let mut buf = vec![];
+    for i in 0..mc_core::gen::count_upto(alphabet.len() as u64, max_len) {
+        mc_core::gen::nth_string(alphabet, i, &mut buf);
+        out.push(buf.clone());
+    }
+    out
+}
+
+/// hash lists of length n over labels 1..=k.
+/// mode 0: all k^n lists; mode 2: the distinct list 1..=n, the list whose first two entries are the same hash and
+/// the list whose last two entries are the same hash (duplicates are rejected whatever the children are, so the
+/// large spaces keep two representatives of "some hash occurs twice").
+fn hash_lists(n: usize, k: usize, mode: u8) -> Vec<Vec<u8>> {
+    let mut out = vec![];
+    if mode == 0 {
+        mc_core::gen::seqs_exact(k, n, &mut |d| out.push(d.iter().map(|x| *x as u8 + 1).collect()));
+    } else {
+        let distinct: Vec<u8> = (1..=n as u8).collect();
+        out.push(distinct.clone());
+        if n >= 2 {
+            let mut first = distinct.clone();
+            first[1] = first[0];
+            out.push(first);
+            let mut last = distinct.clone();
+            last[n - 1] = last[n - 2];
+            if !out.contains(&last) {
+                out.push(last);
+            }
+        }
+    }
+    out
+}
+
+pub fn run(ctx: Ctx) -> ! {
+    if let Some(case) = ctx.read_replay_case() {
+        let Some((shape, n_cfg)) = Shape::from_json(&case) else { mc_core::machinery_error("C35: replay case not understood") };
+        let mut l = Local::new();
+        let v = validator(n_cfg);
+        println!("reference: {:?}", reference(&shape, n_cfg));
+        println!("real:      {:?}", catch(|| run_real(&v, &shape)));
+        check_one(&v, &shape, n_cfg, &mut l, "", false);
+        ctx.merge(l);
+        ctx.finish(Level::Exploration, "replay", 1, false, Map::new(), &[]);
+    }
+
+    let n_cfgs: [usize; 5] = [0, 1, 2, 3, 4];
+    let validators: Vec<TransactionValidator> = n_cfgs.iter().map(|n| validator(*n)).collect();
+    let nontrivial = AtomicU64::new(0); // structures that get past "distinct" and "every child present"
+    let structures = AtomicU64::new(0);
+    let wellformed = AtomicU64::new(0);
+    let yield_cases = AtomicU64::new(0);
+
+    // ---- (1) generic structures ------------------------------------------------------------------
+    // (n, label count k, children list max length, hash-list mode (see hash_lists), skip assignments whose
+    //  lists are all <= this long because an earlier plan already covers them for these hash lists)
+    let mut plans: Vec<(usize, usize, u32, u8, u32)> = vec![(0, 3, 2, 0, 0), (1, 3, 2, 0, 0), (2, 3, 2, 0, 0), (3, 3, 2, 0, 0)];
+    if !ctx.quick() {
+        plans = vec![(0, 3, 3, 0, 0), (1, 3, 3, 0, 0), (2, 3, 3, 0, 0), (3, 3, 2, 0, 0), (3, 3, 3, 2, 2), (4, 4, 2, 2, 0)];
+    }
+    let mut plan_notes = vec![];
+    const BLOCK: u64 = 4096;
+    for (n, k, max_len, mode, skip_len) in plans.iter().copied() {
+        let mut alphabet: Vec<u8> = (1..=k as u8).collect();
+        alphabet.push(UNKNOWN);
+        let opts = children_options(&alphabet, max_len);
+        let lists = hash_lists(n, k, mode);
+        let total = (opts.len() as u64).pow(n as u32 + 1);
+        plan_notes.push(format!(
+            "n={n}, children lists <= {max_len}{}: {} hash lists x {}^{} children assignments x 2 root kinds x 5 depth limits",
+            if skip_len > 0 { format!(" (at least one list longer than {skip_len})") } else { String::new() },
+            lists.len(),
+            opts.len(),
+            n + 1
+        ));
+        for hashes in &lists {
+            for root_is_sub in [false, true] {
+                par_range(&ctx, total.div_ceil(BLOCK), 1, |blk, l| {
+                    let (mut c_struct, mut c_nontrivial, mut c_well, mut c_yield) = (0u64, 0u64, 0u64, 0u64);
+                    for idx in blk * BLOCK..((blk + 1) * BLOCK).min(total) {
+                        let mut rem = idx;
+                        let mut children = Vec::with_capacity(n + 1);
+                        for _ in 0..=n {
+                            children.push(opts[(rem % opts.len() as u64) as usize].clone());
+                            rem /= opts.len() as u64;
+                        }
+                        if skip_len > 0 && children.iter().all(|c| c.len() as u32 <= skip_len) {
+                            continue;
+                        }
+                        let shape = Shape::new(root_is_sub, hashes.clone(), children);
+                        c_struct += 1;
+                        if !matches!(reference(&shape, 3), Ref::Ill("not-distinct") | Ref::Ill("declared-child-absent")) {
+                            c_nontrivial += 1;
+                        }
+                        let tree = build(&shape);
+                        for (ci, n_cfg) in n_cfgs.iter().enumerate() {
+                            let ok = check_tree(&validators[ci], &tree, &shape, *n_cfg, l, "", false);
+                            if ok {
+                                c_well += 1;
+                                // every yield assignment on well-formed shapes (n <= 3 keeps 3^slots small)
+                                if n <= 3 {
+                                    c_yield += yield_sweep(&validators[ci], &shape, *n_cfg, l);
+                                }
+                            }
+                        }
+                    }
+                    structures.fetch_add(c_struct, Ordering::Relaxed);
+                    nontrivial.fetch_add(c_nontrivial, Ordering::Relaxed);
+                    wellformed.fetch_add(c_well, Ordering::Relaxed);
+                    yield_cases.fetch_add(c_yield, Ordering::Relaxed);
+                });
+            }
+        }
+    }
+
+    // ---- (2) depth chains ------------------------------------------------------------------------
+    let mut chain_cases = 0u64;
+    {
+        let mut l = Local::new();
+        let chain_cfgs: [usize; 9] = [0, 1, 2, 3, 4, 5, 6, 7, usize::MAX];
+        for n_cfg in chain_cfgs {
+            let v = validator(n_cfg);
+            for root_is_sub in [false, true] {
+                for depth in 0..=9usize {
+                    for bushy in [false, true] {
+                        for reverse in [false, true] {
+                            // chain labels 1..=depth; bushy adds a leaf sibling (label 100+d) under every chain node and the root
+                            let mut entries: Vec<(u8, Vec<u8>)> = vec![]; // (label, children)
+                            let mut root_children = vec![];
+                            if depth >= 1 {
+                                root_children.push(1u8);
+                            }
+                            for d in 1..=depth {
+                                let mut ch = vec![];
+                                if d < depth {
+                                    ch.push(d as u8 + 1);
+                                }
+                                if bushy {
+                                    ch.push(100 + d as u8);
+                                    entries.push((100 + d as u8, vec![]));
+                                }
+                                entries.push((d as u8, ch));
+                            }
+                            if bushy {
+                                root_children.push(100);
+                                entries.push((100, vec![]));
+                            }
+                            if reverse {
+                                entries.reverse();
+                            }
+                            let mut children = vec![root_children];
+                            children.extend(entries.iter().map(|e| e.1.clone()));
+                            let shape = Shape::new(root_is_sub, entries.iter().map(|e| e.0).collect(), children);
+                            check_one(&v, &shape, n_cfg, &mut l, "chain:", false);
+                            chain_cases += 1;
+                        }
+                    }
+                }
+            }
+        }
+        ctx.merge(l);
+    }
+
+    // ---- (3) informational: hash values outside the domain of real transactions --------------------
+    {
+        let mut l = Local::new();
+        let alphabet = [1u8, 2, UNKNOWN];
+        let opts = children_options(&alphabet, 2);
+        let v = validator(3);
+        for n in 0..=2usize {
+            for hashes in hash_lists(n, 2, 0) {
+                let total = opts.len().pow(n as u32 + 1);
+                for idx in 0..total {
+                    let mut rem = idx;
+                    let mut children = vec![];
+                    for _ in 0..=n {
+                        children.push(opts[rem % opts.len()].clone());
+                        rem /= opts.len();
+                    }
+                    // (i) transaction intent hash = 32 zero bytes (the validator's internal "no parent" sentinel)
+                    let mut s = Shape::new(false, hashes.clone(), children.clone());
+                    s.root_label = 0;
+                    check_one(&v, &s, 3, &mut l, "zero-tx-intent-hash:", true);
+                    // (ii) root subintent whose hash equals the hash S1 (a hash cycle no real payload can have)
+                    let mut s = Shape::new(true, hashes.clone(), children);
+                    s.root_label = 1;
+                    l.eval();
+                    let real = catch(|| run_real(&v, &s));
+                    l.info(&format!("root-subintent-hash-equals-S1:{}", match &real { Ok(Real::Accepted) => "accepted", Ok(Real::Rejected(x)) => x, Err(_) => "panic" }));
+                }
+            }
+        }
+        ctx.merge(l);
+    }
+
+    let mut cov = Map::new();
+    cov.insert("structures".into(), json!(structures.load(Ordering::Relaxed)));
+    cov.insert("structures_past_distinct_and_child_presence".into(), json!(nontrivial.load(Ordering::Relaxed)));
+    cov.insert("wellformed_structure_x_config".into(), json!(wellformed.load(Ordering::Relaxed)));
+    cov.insert("yield_assignments".into(), json!(yield_cases.load(Ordering::Relaxed)));
+    cov.insert("chain_cases".into(), json!(chain_cases));
+    cov.insert("plans".into(), json!(plan_notes));
+    cov.insert("max_subintent_depth_values".into(), json!("generic: 0,1,2,3,4; chains: 0..=7 and usize::MAX"));
+    ctx.finish(
+        Level::Exploration,
+        "a case is one (root kind, max_subintent_depth, subintent hash list, children list per intent, yield counts) evaluated by the real validate_intents_and_structure and by the reference; non-trivial = distinct structures (root kind x hash list x children assignment) that the reference lets past 'pairwise distinct' and 'every declared child present'",
+        nontrivial.load(Ordering::Relaxed),
+        true,
+        cov,
+        &[
+            "mock intents: validate_intent always succeeds and reports one child_yields entry per declared child, as the real summaries do",
+            "hash labels are arbitrary 32-byte patterns; the all-zero transaction-intent hash and a root subintent hash equal to a descendant's are outside the domain (informational)",
+            "a child listed twice by the same parent and max_subintent_depth = 0 with a subintent root are not decided by the statement (informational)",
+        ],
+    )
 }
